@@ -101,6 +101,7 @@ def _resolve_target_set_from_expr(
 
     # The chain visible inside *target*: what encloses it plus its own let
     # layers (and `with` environment / call parameters).
+    enclosing = scope_chain
     if scope_chain is None:
         scope_chain = scopes_for_owner(target)
     else:
@@ -154,8 +155,6 @@ def _resolve_target_set_from_expr(
                 )
                 if output_argument is not None:
                     return output_argument
-            if isinstance(output, AttributeSet):
-                return output
             try:
                 return _resolve_nested(output)
             except ValueError as exc:
@@ -172,6 +171,11 @@ def _resolve_target_set_from_expr(
         case Parenthesis():
             return _resolve_nested(target.value)
         case AttributeSet():
+            if enclosing:
+                # References inside the set resolve in what encloses it (a
+                # lambda head or parentheses between the let layers and the
+                # set must not hide those layers).
+                set_resolution_context(target, enclosing)
             return target
         case FunctionCall():
             argument = _resolve_call_argument(target)
